@@ -411,6 +411,10 @@ func (v *collator_[V]) rankComplex(first, second complex128) Rank {
 	if first == second {
 		return EqualRank
 	}
+	// A negative zero part is the same number as a zero part but would flip
+	// the sign of the phase, so equal values must not be told apart by it.
+	first = complex(real(first)+0, imag(first)+0)
+	second = complex(real(second)+0, imag(second)+0)
 	switch {
 	case cmp.Abs(first) < cmp.Abs(second):
 		// The magnitude of the first vector is less than the second.
@@ -428,8 +432,12 @@ func (v *collator_[V]) rankComplex(first, second complex128) Rank {
 			// The phase of the first vector is greater than the second.
 			return GreaterRank
 		default:
-			// The phases of the vectors are also equal.
-			return EqualRank
+			// The phases of the vectors are also equal (rounding or infinite
+			// parts) although the values differ so order them by their parts.
+			if real(first) != real(second) {
+				return v.rankFloats(real(first), real(second))
+			}
+			return v.rankFloats(imag(first), imag(second))
 		}
 	}
 }
